@@ -242,6 +242,37 @@ def members():
         a.st(a.le(y, 4.0))
         a.st(a.ge(t, -4.0))
 
+    def outside(order):
+        def f(a):
+            p = a.scen(2)
+            t = a.dvar(())
+            x = a.dvar(2)
+            z = a.rvar(())
+            w = a.rvar(2)
+            F = a.ambiguity()
+            a.supp(F, None, a.ge(z, -1.0), a.le(z, 1.5), a.ge(w, -1.0), a.le(w, 1.0))
+            a.expt(F, None, a.eq(a.Ez(z), 0.0), a.eq(a.Ez(w), 0.0))
+            a.minsup(a.E(t), F)
+            ex = a.E(a.sum(x))
+            if order == 'rand_first':
+                a.st(a.le(a.plus(z, ex), t))
+                a.st(a.le(a.plus(w[0], a.E(x[1])), t + 0.25))
+            elif order == 'exp_first':
+                a.st(a.le(a.plus(ex, z), t))
+                a.st(a.le(a.plus(a.E(x[1]), w[0]), t + 0.25))
+            else:
+                a.st(a.le(a.plus(2.0 * z - 0.5 * w[1], ex), t))
+                a.st(a.le(a.plus(a.E(x[1]), 0.5 * w[0]), t + 0.25))
+            a.st(a.ge(x, 0.5))
+            a.st(a.le(x, 3.0))
+            a.st(a.ge(t, -8.0))
+        f.__name__ = 'random_outside_expectation_' + order
+        f.__doc__ = 'A random variable written OUTSIDE E() next to an expectation of static decisions stays robust, in either operand order.'
+        return f
+
+    for order in ('rand_first', 'exp_first', 'scaled'):
+        reg(outside(order))
+
     @reg
     def adaptive_equality_own_set(a):
         """An equality on an affinely adaptive decision with its OWN ambiguity set (not the default one)."""
